@@ -1,7 +1,7 @@
 """Configuration of ./check C20 (see pylib/props.py)."""
 CFG = dict(
         coq=["props/C20.vo"],
-        tie=["gen/Tie_C20.vo"],
+        tie=["gen/Tie_C20.vo", "gen/Tie_Code_Fanout.vo"],
         model_vo=["model/HashSet.vo", "model/HashSetSpec.vo"],
         extract="Ex_C20",
         level_text="Refinement theorem C20_refines: every Add/Flush/Has/reopen/Len/dump sequence on the transliterated "
